@@ -40,6 +40,8 @@ CHECKS = {
          'Every stream reply of the explored histories (XADD auto/explicit ids incl. colliding and maximal ids, XDEL, XTRIM, range reads with all bound positions and COUNT) and the dataset afterwards are those of the ordered-log model; listed deviations are open findings.'),
  'C16': ('model_checking', 'TLC model checking of consumer-group laws (MC_Data/MC_C16: XPENDING summary = PEL, per-consumer counts) + generated tests and seeded random multi-group histories + TLC trace validation',
          'Every XREADGROUP/XACK/XCLAIM/XPENDING/XGROUP reply of the explored histories matches a model of group cursor + pending map; listed deviations are open findings.'),
+ 'C10': ('model_checking', 'fault enumeration of every n-th write of a save (hook) + BGSAVE parked at each per-key step by sync points while a client mutates the key, dump loaded by restart and validated by TLC against the per-key history the spec keeps during the save (BgTrack) + every prefix / byte corruptions of valid dumps loaded by the real loader in a child under RLIMIT_AS with a counting allocator',
+         'For every enumerated failing write the previous dump is byte-identical and later saves work; for every forced schedule the loaded entry of every key (value and deadline together) is one the key held during the save and the file is loadable; for every enumerated truncated/corrupted file the loader ends with an error or a key-wise equal partial load within allocation and time bounds.'),
 }
 NOT_YET = {}
 
